@@ -34,6 +34,26 @@ func runC35(c *Ctx) {
 	if m == nil {
 		return
 	}
+	// the wrapper without start offsets is a pure delegation: every partition the
+	// full calculation reports (incl. the -1/errListMissing ones when end offsets
+	// are missing) is reported by it too
+	if wf := c.NeedFunc(m, "kadm.CalculateGroupLag"); wf != nil {
+		ok := false
+		if len(wf.Decl.Body.List) == 1 {
+			if r, isR := wf.Decl.Body.List[0].(*ast.ReturnStmt); isR && len(r.Results) == 1 {
+				if call, isC := r.Results[0].(*ast.CallExpr); isC && calleeName(wf.Info(), call) == "kadm.CalculateGroupLagWithStartOffsets" && len(call.Args) == 4 {
+					var params []string
+					for _, fl := range wf.Decl.Type.Params.List {
+						for _, nm := range fl.Names {
+							params = append(params, nm.Name)
+						}
+					}
+					ok = len(params) == 3 && exprStr(call.Args[0]) == params[0] && exprStr(call.Args[1]) == params[1] && exprStr(call.Args[2]) == "nil" && exprStr(call.Args[3]) == params[2]
+				}
+			}
+		}
+		c.Check(ok, "wrapper-delegates", wf.Key, wf.Pos(), m, "return CalculateGroupLagWithStartOffsets(group, commit, nil, endOffsets)", "CalculateGroupLag is not a pure delegation to CalculateGroupLagWithStartOffsets(group, commit, nil, endOffsets): some inputs (e.g. empty end offsets) take a shortcut that drops partitions which must be reported with Lag -1 and an error")
+	}
 	f := c.NeedFunc(m, "kadm.CalculateGroupLagWithStartOffsets")
 	if f == nil {
 		return
